@@ -167,7 +167,7 @@ func init() {
 		os.Exit(0)
 	}
 	rep := vx.NewReport("C20", *tier, "fault_enumeration")
-	rep.Rule = "to_nsq: every input over {a, b, delimiter, NUL} up to length N x delimiter {LF, comma, NUL} + records of 4095/4096/4097 bytes with and without a final delimiter, through the real readAndPublish loop and real nsq.Producers into recording nsqd stand-ins (1 and 2 destinations). nsq_to_nsq: every verdict string of length <= 4 over {OK, error frame, close, close before reading} x mode {round-robin, hostpool, epsilon-greedy} x destinations {1,2} through the real PublishHandler/responder, source messages with a recording delegate, re-offered after a requeue. nsq_to_http: every status string of length <= 4 over {200,201,204,301,400,404,500,503,close} x {GET,POST} x mode x endpoints {1,2} through the real HandleMessage. distinct = distinct (tool, case class, outcome)"
+	rep.Rule = "to_nsq: every input over {a, b, delimiter, NUL} up to length N x delimiter {LF, comma, NUL} + records of 4095/4096/4097 bytes with and without a final delimiter, through the real readAndPublish loop and real nsq.Producers into recording nsqd stand-ins (1 and 2 destinations). nsq_to_nsq: every verdict string of length <= 4 over {OK, error frame, close, close before reading, destination down (no live connection, next connect cut off)} x mode {round-robin, hostpool, epsilon-greedy} x destinations {1,2} through the real PublishHandler/responder, source messages with a recording delegate, re-offered after a requeue. nsq_to_http: every status string of length <= 4 over {200,201,204,301,400,404,500,503,close} x {GET,POST} x mode x endpoints {1,2} through the real HandleMessage. distinct = distinct (tool, case class, outcome)"
 	rep.Assumptions = []string{"go-nsq turns a nil handler return / Finish() into FIN and an error / Requeue() into REQ", "real loopback sockets, no controlled scheduler: nothing here is scheduling-dependent beyond go-nsq's own request/response pairing"}
 	merge := func(p partResult) {
 		rep.Evaluations += p.Evaluations
@@ -181,6 +181,9 @@ func init() {
 			rep.Sample(s)
 		}
 		for k, v := range p.Extra {
+			if old, ok := rep.Extra[k].(int); ok {
+				v += old
+			}
 			rep.Extra[k] = v
 		}
 	}
@@ -191,12 +194,15 @@ func init() {
 		out  []byte
 		err  error
 	}
-	others := []string{"h_nsq_to_nsq", "h_nsq_to_http"}
+	// (nsq_to_nsq is sharded by mode x destinations: its cases wait for go-nsq to tear dead
+	// connections down, which is wall-clock time)
+	others := []string{"h_nsq_to_nsq -shard 0", "h_nsq_to_nsq -shard 1", "h_nsq_to_nsq -shard 2", "h_nsq_to_nsq -shard 3", "h_nsq_to_nsq -shard 4", "h_nsq_to_nsq -shard 5", "h_nsq_to_http"}
 	ch := make(chan childRes, len(others))
 	for _, other := range others {
 		other := other
 		go func() {
-			cmd := exec.Command(dir+"/"+other, "-part", "-tier", *tier)
+			f := strings.Fields(other)
+			cmd := exec.Command(dir+"/"+f[0], append([]string{"-part", "-tier", *tier}, f[1:]...)...)
 			cmd.Stderr = os.Stderr
 			out, err := cmd.Output()
 			ch <- childRes{other, out, err}
